@@ -45,6 +45,7 @@ func init() {
 			"An obligation is one arithmetic instruction in one inlining context of one primitive: +,*,<< below 2^w, subtractions non-negative, discarded carries / high words zero, W>>k fits a word, narrowing conversions exact, outputs exact words within the documented reduced bound, closure of pre/post-conditions; a word that may wrap is tolerated only if every consumer is exact modulo 2^w (the modelled idioms, counted in the evidence). " +
 			"Stage B interprets the element-level code in join mode (worklist, widening) from every exported function of the packages that import internal/field; each primitive call raises the pre-condition obligation and is replaced by a memoised stage A analysis on the actual argument bounds; non-local elements are abstracted by one bound per (struct type, field), iterated to a fixpoint. " +
 			"Engine E-LIN (package voicheck/elin): the byte<->limb conversions SetBytes, SetBytesWide, ToBytes and the weak reduction are interpreted in the domain of affine forms with rational coefficients over the input bits (no path conditions, no solver): SetBytes gives Σ limb_i·2^off_i = Σ_{k<255} 2^k·bit_k exactly (bit 255 ignored), SetBytesWide is coefficient-wise congruent to Σ_{k<512} 2^k·bit_k mod p before and after the reduction, the weak reduction preserves the value mod p, ToBytes packs a bijection of 255 bits, its carry chain and its quotient Q = [h >= p] are affine facts. " +
+			"E-LIN with monomial symbols (the product of two input limbs is a named symbol, so the code stays affine): feMulGeneric/Mul, fePow2kGeneric/Pow2k/Square/Square2, Mul121666, Add, Sub, Neg satisfy Σ r_k·2^off_k ≡ the specified polynomial of the inputs modulo p coefficient-wise, every carry/quotient symbol cancels mod p, bias constants vanish mod p, nothing wraps. " +
 			"Nothing of the repository is executed."
 		run.Assumptions = append(run.Assumptions,
 			"go/types and go/ssa (golang.org/x/tools v0.29.0) represent the program faithfully; math/bits.Mul64/Add64 and encoding/binary.LittleEndian behave as documented",
@@ -55,7 +56,7 @@ func init() {
 			"stage B is closed-world: internal/field can only be imported inside the module and every importing package is analysed; exported functions are entered with any aliasing of up to three same-typed pointer parameters (more: none or all); elements reachable from their parameters satisfy the inferred per-(type,field) bounds, which every exported function is shown to re-establish",
 		)
 		run.NotDecided = append(run.NotDecided,
-			"functional exactness of multiplication, squaring, inversion and square roots (which partial product goes to which limb, that carries are added to the right limb with the right weight): only ranges are decided",
+			"inversion, square roots and the exponentiation chains (compositions of the decided primitives): not decided; multiplication/squaring/Pow2k/Mul121666/Add/Sub/Neg written in Go ARE decided functionally by E-LIN (result ≡ product mod p coefficient-wise in the monomials a_i·b_j); the induction over k in Pow2k is argued from the one-iteration check",
 			"the amd64 assembly (feMul, fePow2k) and the AVX2 vector code: no range model of assembly; in the amd64 configuration Mul, Square, Square2 and Pow2k are reported as not decided and stage B is not run",
 			"the last step of ToBytes's canonicalisation argument (discarded carry = quotient) is a stated two-case argument from decided facts, not mechanised; that the bias constants of Sub/Neg are a multiple of p (E-CONST), limb uniformity of the limb-wise operations (E-SIB)",
 			"curve/scalar: the 64-bit back end is analysed by erange.CheckScalar64 under property C05; the 32-bit scalar back end wraps on purpose (Karatsuba) and is out of reach of intervals",
@@ -83,6 +84,11 @@ func init() {
 				}
 				erange.CheckFieldStageA(run, p, "RANGE-A")
 				// byte<->limb conversions and the weak reduction as affine identities (engine E-LIN)
+				// limb multiplication, squaring, Mul121666, Add/Sub/Neg as identities in the products of input limbs (E-LIN, monomial symbols)
+				mr := elin.CheckMul(run, p, "MUL")
+				if id == stageA[0] {
+					run.Sample(map[string]any{"config": id, "MUL functions": mr.Functions, "MUL obligations": mr.Obligations})
+				}
 				lr := elin.CheckField(run, p, "LIN")
 				if id == stageA[0] {
 					run.Sample(map[string]any{"config": id, "LIN functions": lr.Functions, "LIN obligations": lr.Obligations})
